@@ -159,6 +159,39 @@ def rebase_diff(data, back, queries, resolved):
     again = consume(Inventory.parse(BASE, data), queries)
     if again != resolved:
         return f"reading the inventory under {BASE!r} a second time resolves differently"
+    return fetch_diff(data)
+
+
+FETCH_URL = "https://Docs.Example.org/Manual/V1.0/objects.inv"
+
+
+def fetch_diff(data):
+    """the loader a consuming project uses (`fetch_inventory`, the HTTP cache replaced by a stub that serves exactly FETCH_URL): the
+    inventory is asked for under the URL as configured, and its entries belong to the directory of that URL - capitals and all"""
+    from snooty import intersphinx
+    asked = []
+
+    class Stub:
+        def __init__(self, *a, **k):
+            pass
+
+        def get(self, url, *a, **k):
+            asked.append(url)
+            if url != FETCH_URL:
+                raise OSError(f"404 for {url}")
+            return data
+
+    orig = intersphinx.HTTPCache
+    intersphinx.HTTPCache = Stub
+    try:
+        inv = intersphinx.fetch_inventory(FETCH_URL, None)
+    except Exception as e:
+        return f"fetching {FETCH_URL!r} (served under exactly that URL) raised {type(e).__name__}; requested {asked}"
+    finally:
+        intersphinx.HTTPCache = orig
+    want = FETCH_URL.rsplit("/", 1)[0] + "/"
+    if inv.base_url != want:
+        return f"an inventory fetched from {FETCH_URL!r} is joined to {inv.base_url!r}, not to {want!r}"
     return None
 
 
